@@ -31,6 +31,25 @@ Pointers (targets of refs / evaluated places):
 """
 from .zone import Zone, Term, fresh, ZERO
 
+import json as _json
+
+
+class TyBox(dict):
+    """a MIR type (JSON object) made hashable so that it can sit inside abstract values"""
+    def __hash__(self):
+        h = self.__dict__.get('_h')
+        if h is None:
+            h = hash(_json.dumps(self, sort_keys=True, default=str))
+            self.__dict__['_h'] = h
+        return h
+
+
+def freeze(ty):
+    if ty is None or isinstance(ty, TyBox):
+        return ty
+    return TyBox(ty)
+
+
 MOVED = ('moved',)
 UNIT = ('tuple', ())
 TRUE = ('bool', True)
@@ -57,7 +76,7 @@ class MapState:
     """Slot exceptions of one container relative to INV at its current len."""
     __slots__ = ('len', 'cap', 'holes', 'extras', 'hole_rng', 'extra_rng', 'contents',
                  'exempt', 'dead', 'owned_extras', 'name', 'len0', 'examined', 'phantom',
-                 'entry_inv')
+                 'entry_inv', 'borrowed')
 
     def __init__(self, len_, cap, name):
         self.len = len_
@@ -75,6 +94,7 @@ class MapState:
         self.examined = None      # (key_tag, lo, hi): prefix compared against key_tag, all "no"
         self.phantom = False
         self.entry_inv = True
+        self.borrowed = False     # lives behind a reference given to the root (survives the call)
 
     def copy(self):
         m = MapState.__new__(MapState)
@@ -99,7 +119,7 @@ class MapState:
 
 class State:
     __slots__ = ('frames', 'fmeta', 'objs', 'maps', 'zone', 'events', 'unwinding', 'depth',
-                 'next_id', 'assumed', 'notes')
+                 'next_id', 'assumed', 'notes', 'keep')
 
     def __init__(self):
         self.frames = {}      # fid -> {local: val}
@@ -113,6 +133,7 @@ class State:
         self.next_id = 0
         self.assumed = ()
         self.notes = ()
+        self.keep = frozenset()   # heap cells that model caller-owned memory (never collected)
 
     def fork(self):
         s = State.__new__(State)
@@ -127,6 +148,7 @@ class State:
         s.next_id = self.next_id
         s.assumed = self.assumed
         s.notes = self.notes
+        s.keep = self.keep
         return s
 
     def new_id(self, prefix):
